@@ -82,7 +82,13 @@ def _gen_docs(r, n):
             ptoks[tok] = {'doc': i, 'form': form}
             tag = '!path' + (':' + form if form else '')
             node = raw(f'{tag} [{tok}]')
-            if r.random() < 0.3:
+            if i > 0 and form and '(' not in form and r.random() < 0.25:
+                # ... except here: the previous document has a plain list under the key, and the !path is merged into it
+                # element-wise ({{'delete': False}}); it still denotes a place next to the file *it* was written in
+                node = raw(f"{tag}{{{{'delete': False}}}} [{tok}]")
+                docs[i - 1]['items'].append([f'p{i}_{j}', emit.q([emit.s('placeholder')])])
+                d['items'].append([f'p{i}_{j}', node])
+            elif r.random() < 0.3:
                 d['items'].append([f'pbox{i}', emit.m({f'in{j}': node})])
             else:
                 d['items'].append([f'p{i}_{j}', node])
